@@ -291,7 +291,7 @@ def run(ctx):
         # the real transition systems (GIL-bound: sequential), then one monitor and one conformance run over all
         graphs = [real_graph(c, 12000 if q else 60000) for c in cfgs]
         # seeded histories with large batches (4-12 items, heavy duplication), as path graphs
-        big = big_histories(ctx.rng, 300 if q else 6000)
+        big = big_histories(ctx.rng, 300 if q else 3000)
         cfgs = cfgs + big
         graphs = graphs + [path_graph(c) for c in big]
         gfile = ctx.datafile("graphs.json", graphs)
